@@ -91,13 +91,13 @@ func (fr *Frame) copyRegion(elem types.Type, dst, src, n Term, st *State, cond T
 		if k, ok := litInt(n); ok && k <= 16 {
 			t := old
 			for i := int64(0); i < k; i++ {
-				t = store(t, add(dst, itoa(i)), sel(old, add(src, itoa(i))))
+				t = store(t, adr(dst, itoa(i)), sel(old, adr(src, itoa(i))))
 			}
 			vc.set(st, fam, ite(cond, t, old))
 		} else {
 			nw := vc.fresh(fam+"~cp", vc.famSort(fam))
-			vc.assume(fmt.Sprintf("(forall ((k Int)) (! (= (select %s k) (ite (and %s (<= %s k) (< k (+ %s %s))) (select %s (+ %s (- k %s))) (select %s k))) :pattern ((select %s k))))",
-				nw, cond, dst, dst, n, old, src, dst, old, nw))
+			vc.assume(fmt.Sprintf("(forall ((k Int)) (! (= (select %s k) (ite (and %s (<= %s k) (< k (+ %s %s))) (select %s %s) (select %s k))) :pattern ((select %s k))))",
+				nw, cond, dst, dst, n, old, adr(src, sx("-", "k", dst)), old, nw))
 			st.m[fam] = nw
 		}
 		if track {
@@ -135,7 +135,7 @@ func (fr *Frame) appendCall(x *ssa.Call, s, t Val, st *State, rch Term) Val {
 		fr.copyRegion(elem, fresh, s.C[0], s.C[1], st, not(inPlace), true)
 	}
 	// 2. the appended elements
-	fr.copyRegion(elem, add(arr, s.C[1]), tarr, tlen, st, "true", true)
+	fr.copyRegion(elem, adr(arr, s.C[1]), tarr, tlen, st, "true", true)
 	return Val{T: x.Type(), C: []Term{arr, newLen, cp}}
 }
 
@@ -347,11 +347,12 @@ func init() {
 		return Val{T: x.Type(), C: []Term{and(eq(sx("mod", sx("div", b, pow2T(52)), "2048"), "2047"), not(eq(sx("mod", b, pow2T(52)), "0")))}}
 	}
 	intrinsics["math.IsInf"] = func(fr *Frame, x *ssa.Call, args []Val, st *State, rch Term) Val {
+		// IEEE 754: infinite iff exponent all ones and mantissa zero; the sign is bit 63
 		b := args[0].t()
 		sign := args[1].t()
-		pinf := eq(b, "9218868437227405312")
-		ninf := eq(b, "18442240474082181120")
-		return Val{T: x.Type(), C: []Term{or(and(sx(">=", sign, "0"), pinf), and(sx("<=", sign, "0"), ninf))}}
+		inf := and(eq(sx("mod", sx("div", b, pow2T(52)), "2048"), "2047"), eq(sx("mod", b, pow2T(52)), "0"))
+		neg := sx(">=", b, pow2T(63))
+		return Val{T: x.Type(), C: []Term{and(inf, or(eq(sign, "0"), and(sx(">", sign, "0"), not(neg)), and(sx("<", sign, "0"), neg)))}}
 	}
 	// internal/unsafe: same memory, no copy (assumed from the unsafe body)
 	intrinsics["github.com/elastic/go-structform/internal/unsafe.Str2Bytes"] = func(fr *Frame, x *ssa.Call, args []Val, st *State, rch Term) Val {
@@ -421,7 +422,7 @@ func init() {
 				} else {
 					sum = append(sum, sx("*", pow2T(uint(8*(n-1-i))), c))
 				}
-				h = store(h, add(b.C[0], itoa(int64(i))), c)
+				h = store(h, adr(b.C[0], itoa(int64(i))), c)
 			}
 			vc.assume(eq(v.t(), sx("+", sum...)))
 			vc.set(st, "E$uint8", h)
@@ -435,7 +436,7 @@ func init() {
 			h := vc.get(st, "E$uint8")
 			var sum []Term
 			for i := 0; i < n; i++ {
-				c := vc.sel(h, add(b.C[0], itoa(int64(i))))
+				c := vc.sel(h, adr(b.C[0], itoa(int64(i))))
 				vc.assume(implies(rch, and(sx("<=", "0", c), sx("<=", c, "255"))))
 				if i == n-1 {
 					sum = append(sum, c)
@@ -555,15 +556,15 @@ func init() {
 		cp := vc.define("apcp", "Int", ite(inPlace, dst.C[2], newCap))
 		fr.copyRegion(types.Typ[types.Uint8], fresh, dst.C[0], dst.C[1], st, not(inPlace), true)
 		// the appended bytes: unknown text with the syntactic shape of a float
-		vc.havocElems(types.Typ[types.Uint8], add(arr, dst.C[1]), n, st, fr)
+		vc.havocElems(types.Typ[types.Uint8], adr(arr, dst.C[1]), n, st, fr)
 		h := vc.get(st, "E$uint8")
-		base := add(arr, dst.C[1])
+		base := adr(arr, dst.C[1])
 		bits := args[1].t()
 		finite := not(eq(sx("mod", sx("div", bits, pow2T(52)), "2048"), "2047"))
 		dot := vc.fresh("appendfloat.dot", "Int")
 		e := vc.fresh("appendfloat.e", "Int")
-		vc.assume(implies(finite, fmt.Sprintf("(forall ((k Int)) (! (=> (and (<= 0 k) (< k %s)) (let ((c (select %s (+ %s k)))) (and (or (and (<= 48 c) (<= c 57)) (= c 43) (= c 45) (= c 46) (= c 101)) (= (= c 46) (= k %s)) (= (= c 101) (= k %s))))) :pattern ((select %s (+ %s k)))))",
-			n, h, base, dot, e, h, base)))
+		vc.assume(implies(finite, fmt.Sprintf("(forall ((k Int)) (! (=> (and (<= 0 k) (< k %s)) (let ((c (select %s %s))) (and (or (and (<= 48 c) (<= c 57)) (= c 43) (= c 45) (= c 46) (= c 101)) (= (= c 46) (= k %s)) (= (= c 101) (= k %s))))) :pattern ((select %s %s))))",
+			n, h, adr(base, "k"), dot, e, h, adr(base, "k"))))
 		// dot/e positions: -1 when absent; '.' precedes 'e'
 		vc.assume(and(sx("<=", "(- 1)", dot), sx("<", dot, n), sx("<=", "(- 1)", e), sx("<", e, n), implies(and(sx(">=", dot, "0"), sx(">=", e, "0")), sx("<", dot, e))))
 		return Val{T: x.Type(), C: []Term{arr, newLen, cp}}
@@ -583,14 +584,14 @@ func init() {
 		h := vc.get(st, "E$uint8")
 		r := vc.fresh("decoderune.r", "Int")
 		size := vc.fresh("decoderune.size", "Int")
-		b0 := vc.sel(h, s.C[0])
+		b0 := vc.sel(h, adr(s.C[0], "0"))
 		ln := s.C[1]
 		vc.assume(and(
 			implies(eq(ln, "0"), and(eq(r, "65533"), eq(size, "0"))),
 			implies(sx(">", ln, "0"), and(sx("<=", "1", size), sx("<=", size, "4"), sx("<=", size, ln), sx("<=", "0", r), sx("<=", r, "1114111"))),
 			implies(and(sx(">", ln, "0"), sx("<", b0, "128")), and(eq(size, "1"), eq(r, b0))),
 			implies(and(sx(">", ln, "0"), sx(">=", b0, "128")), sx(">=", r, "128")),
-			implies(sx(">", size, "1"), and(sx(">=", vc.sel(h, add(s.C[0], "1")), "128"), implies(sx(">", size, "2"), sx(">=", vc.sel(h, add(s.C[0], "2")), "128")), implies(sx(">", size, "3"), sx(">=", vc.sel(h, add(s.C[0], "3")), "128")))),
+			implies(sx(">", size, "1"), and(sx(">=", vc.sel(h, adr(s.C[0], "1")), "128"), implies(sx(">", size, "2"), sx(">=", vc.sel(h, adr(s.C[0], "2")), "128")), implies(sx(">", size, "3"), sx(">=", vc.sel(h, adr(s.C[0], "3")), "128")))),
 			// surrogate halves are never decoded
 			not(and(sx("<=", "55296", r), sx("<=", r, "57343")))))
 		return Val{T: x.Type(), C: []Term{r, size}}
